@@ -871,7 +871,35 @@ def r12_20(chk):
     chk.floor("R12.20", 3, "is_stop x2, is_start")
 
 
+def r12_21(chk):
+    chk.rule("R12.21", "what trim_stop_codon removes is the codon it detected: in both sequence modules the gapped branch builds its terminal-stop pattern from the codon that was tested with gc.is_stop(...) (the sequence's own spelling), not from the genetic code's table gc['*'] -- the table is spelt in DNA, is_stop reads U as T, so for a gapped RNA sequence the stop is detected (has_terminal_stop() True) and nothing is removed")
+    n = 0
+    for rel, q in (("core/sequence.py", "NucleicAcidSequence.trim_stop_codon"), ("core/new_sequence.py", "NucleicAcidSequenceMixin.trim_stop_codon")):
+        m = chk.repo.module(rel)
+        fn = m.func(q)
+        tested = [norm(c.args[0]) for c in walk_no_nested(fn) if isinstance(c, ast.Call) and isinstance(c.func, ast.Attribute) and c.func.attr == "is_stop" and c.args]
+        pats = [st for st in walk_no_nested(fn) if isinstance(st, ast.Assign) and isinstance(st.targets[0], ast.Name) and isinstance(st.value, ast.JoinedStr)]
+        comps = [c for c in walk_no_nested(fn) if isinstance(c, ast.Call) and norm(c.func) in ("re.compile", "re.sub", "re.search")]
+        k = key(m, q, "removal pattern spelt like the detected codon")
+        if not comps:
+            chk.ok("R12.21", k, m.loc(fn), "no regular expression in the removal", nontrivial=False)
+            continue
+        n += 1
+        src = pats[0].value if pats else comps[0].args[0]
+        from_table = [x for x in ast.walk(src) if isinstance(x, ast.Subscript) and isinstance(x.slice, ast.Constant) and x.slice.value == "*"]
+        names = {x.id for x in ast.walk(src) if isinstance(x, ast.Name)}
+        from_tested = bool(tested) and any(t in names for t in tested)
+        if from_table and not from_tested:
+            # tolerated when the table's spellings are converted to the sequence's alphabet first
+            conv = any(isinstance(c, ast.Call) and isinstance(c.func, ast.Attribute) and c.func.attr == "replace" and [getattr(a, "value", None) for a in c.args] == ["T", "U"] for c in ast.walk(fn))
+            chk.decide(conv, "R12.21", k, m.loc(src), "table spellings converted T->U for RNA", f"the pattern is built from `{norm(from_table[0])}` (DNA spellings) while the stop was detected with is_stop({tested[0] if tested else '?'}) (which reads U as T): RNA 'AUGCCCUAA---' keeps its stop, and translating it raises 'stop codon in translation'")
+        else:
+            chk.decide(from_tested, "R12.21", k, m.loc(src), f"pattern built from `{tested[0] if tested else ''}`", "the removal pattern derives neither from the tested codon nor from the code's table")
+    chk.floor("R12.21", 2, "old and new trim_stop_codon")
+
+
 def run(chk):
+    r12_21(chk)
     r12_20(chk)
     r12_19(chk)
     r12_18(chk)
